@@ -360,7 +360,8 @@ def run(chk, tier):
         raise ToolError("vacuity: no length outside the circuit's reach was recorded")
     for what, cls in named.items():
         chk.canary("the class named by the spec canary (%s: %s) is part of the replay" % (what, cls),
-                   cls is not None and st["classes"].get(cls, {}).get("native_reject", 0) > 0)
+                   cls is not None and (st["classes"].get(cls, {}).get("native_reject", 0) > 0
+                                        or (cls.startswith("honest_") and st["classes"].get(cls, {}).get("n", 0) > 0)))
     flagged = []
     judge(byid, res, cats, varcat, lambda kind, key, d, p: flagged.append(key) if kind == "violation" else None, selftest=True)
     chk.canary("binding: a flipped circuit verdict (untampered proof assigned, tampered proof judged natively) is reported",
